@@ -95,7 +95,7 @@ class Run:
         return [[n, kind, i, c] for (n, kind, i), c in sorted(agg.items())]
 
     def record(self, a, n, m, compare=True, settled=False):
-        self.events.append({"a": a, "n": n, "m": m, "compare": compare, "settled": settled,
+        self.events.append({"a": a, "n": n, "m": m, "compare": compare, "settled": settled, "only": 0,
                             "post": self.net.project(self.balias, self.talias), "relays": self.relays()})
 
     def do(self, act, compare=True):
